@@ -316,7 +316,7 @@ struct Inst
 
   int id_of(const std::shared_ptr<PC>& p) { for (auto& kv : bufs) if (kv.second == p) return kv.first; return -1; }
   // input configuration (N line)
-  int in_mode = 0; int msop_port = 0, difop_port = 0; bool vlan = false, repeat = false;
+  int in_mode = 0; int msop_port = 0, difop_port = 0; bool vlan = false, repeat = false; float rate = 1000000.0f;
   std::vector<std::pair<uint32_t, std::vector<uint8_t>>> frames;   // pcap records (len, captured bytes)
   std::vector<std::pair<int, std::vector<uint8_t>>> dgrams;         // (port, payload)
   std::shared_ptr<PC> get()
@@ -486,7 +486,14 @@ static int run_scenario(std::vector<std::string>& lines)
       else if (!in->drv) { LOCKED_PRINT("nodrv %d\n", in->idx); continue; }
       else if (c == "LI") { bool ok = in->drv->init(in->lparam); LOCKED_PRINT("linit %d %d\n", in->idx, (int)ok); }
       else if (c == "LS") { bool ok = in->drv->start(); LOCKED_PRINT("lstart %d %d\n", in->idx, (int)ok); }
-      else if (c == "LX") { in->drv->stop(); in->stopped = true; LOCKED_PRINT("lstop %d\n", in->idx); }
+      else if (c == "LX")
+      {
+        in->drv->stop(); in->stopped = true;
+        // stop() leaves no open frame behind for the next session
+        auto impl = in->drv->driver_ptr_;
+        size_t n = (impl->decoder_ptr_ && impl->decoder_ptr_->point_cloud_) ? impl->decoder_ptr_->point_cloud_->points.size() : 0;
+        LOCKED_PRINT("lstop %d\n", in->idx); LOCKED_PRINT("lopen %d %zu\n", in->idx, n);
+      }
       else if (c == "LP") { Packet pk; if (t.size() > 2) pk.buf_ = unhex(t[2]); in->drv->decodePacket(pk); }
       else if (c == "LW")
       {
@@ -632,7 +639,7 @@ static int run_scenario(std::vector<std::string>& lines)
     else if (c == "N")
     {
       Inst& in = *insts[(int)I(1)];
-      in.in_mode = (int)I(2); in.msop_port = (int)I(3); in.difop_port = (int)I(4); in.vlan = I(5) != 0; in.repeat = I(6) != 0;
+      in.in_mode = (int)I(2); in.msop_port = (int)I(3); in.difop_port = (int)I(4); in.vlan = I(5) != 0; in.repeat = I(6) != 0; in.rate = t.size() > 7 ? (float)atof(t[7].c_str()) : 1000000.0f;
     }
     else if (c == "F") { Inst& in = *insts[(int)I(1)]; in.frames.push_back({(uint32_t)I(2), t.size() > 3 ? unhex(t[3]) : std::vector<uint8_t>()}); }
     else if (c == "U") { Inst& in = *insts[(int)I(1)]; in.dgrams.push_back({(int)I(2), t.size() > 3 ? unhex(t[3]) : std::vector<uint8_t>()}); }
@@ -642,7 +649,7 @@ static int run_scenario(std::vector<std::string>& lines)
       g_fake_clock = false; g_fake_wall = false;     // real threads: real clocks (the LiDAR clock is used for time stamps)
       RSDriverParam p = in->param;
       p.input_param.msop_port = (uint16_t)in->msop_port; p.input_param.difop_port = (uint16_t)in->difop_port;
-      p.input_param.use_vlan = in->vlan; p.input_param.pcap_repeat = in->repeat; p.input_param.pcap_rate = 1000000.0f;
+      p.input_param.use_vlan = in->vlan; p.input_param.pcap_repeat = in->repeat; p.input_param.pcap_rate = in->rate;
       std::string path;
       if (in->in_mode == 1 || in->in_mode == 3)
       {
